@@ -151,7 +151,7 @@ pub fn de_all(t: &DTy, bytes: &[u8]) -> Result<DeRes, String> {
     for sched in [1u64, 0x5eed] {
         let io2 = guard(|| {
             let mut scratch = vec![0u8; bytes.len() + 8];
-            let rd = crate::ops_io::SchedReader { data: bytes.to_vec(), pos: 0, fault: None, rng: crate::prng::Rng::new(sched), whole: false, one: sched == 1 };
+            let rd = crate::ops_io::SchedReader { data: bytes.to_vec(), pos: 0, fault: None, rng: crate::prng::Rng::new(sched), whole: false, one: sched == 1, transient: false };
             with_ty(t, || postcard::from_io::<DynVal, _>((rd, &mut scratch[..])).map(|(v, (rd, _))| (v.0, rd.data[rd.pos..].to_vec())).map_err(|e| err_name(&e)))
         })
         .map_err(|_| "panic in from_io (short reads)".to_string())?;
